@@ -23,6 +23,8 @@ behaviour) and every command also on a *direct* copy of the store (`Mem.step`, n
   scan <pat>                    `scan(pat)`           -- <pat> travels as `x` + its code points in decimal joined by `.`
   getmatch <pat>                `get_match(pat)`      -- (`x107.42` = "k*", `x` = the empty pattern), as in Drivers/C13.lean
 
+  out <command>                 a command of ANOTHER client (not in the task's transaction): applied to the backend store and to the direct
+                                copy; accepted only while the running segment has issued no command yet (else `bad-op`)
   disable <word>... | enable <word>...   `cache.disable(Command.X, ...)` / `cache.enable(...)` (Model/TxGate.lean) for the commands named
                                 by their protocol words (set setmany get getmany exists incr delete delmany expire getexpire delmatch
                                 scan getmatch), anywhere in a program.  A command that is disabled when it is issued goes nowhere
@@ -219,6 +221,18 @@ def step (s : St) (line : String) : St × String :=
     let (c', o) := s.ctx.step .commit
     let (s2, n) := closeSeg { s with ctx := c' }
     ({ s2 with direct := s2.ctx.st.b }, s!"tx={showOut o} {n} " ++ views s2)
+  | "out" :: ws =>
+    -- ANOTHER CLIENT's command (outside the task's transaction): straight to the backend store, and to the direct copy.
+    -- Only where the running segment has buffered nothing yet (right after the outermost `enter`, `commitnow`, `rollback`).
+    match parseOp? ws with
+    | none => (s, "bad-op")
+    | some op =>
+      if !s.acc.isEmpty then (s, "bad-op") else
+      if s.dis.contains (ws.headD "") then (s, s!"tx={disabledAnswer ws} direct={disabledAnswer ws} " ++ views s) else
+      let (b', o) := s.ctx.st.b.step op
+      let (d', o') := s.direct.step op
+      let s' := { s with ctx := { s.ctx with st := { s.ctx.st with b := b' } }, direct := d', b0 := b' }
+      (s', s!"tx={showOut o} direct={showOut o'} " ++ views s')
   | "disable" :: ws =>
     if ws.all cmdWords.contains then
       let s' := { s with dis := (s.dis ++ ws).eraseDups }
